@@ -45,6 +45,7 @@ def run(ctx, tier):
                  ("R4", "input parsed against a base only if the base is valid"),
                  ("R7", "a size-checked parse against a base uses a base built by the storing parser"),
                  ("R8", "the fast validator defers every authority containing tab / LF / CR, in the host part and in the port part"),
+                 ("R9", "the fast validator's Punycode marker is no more specific than the literal that sends the host parsers to the IDNA conversion"),
                  ("R5", "fast validator's accepted host bytes"),
                  ("R6", "fast validator defers every possibly-IPv4 host (case-insensitively)")):
         ctx.rule(r, t)
@@ -53,6 +54,8 @@ def run(ctx, tier):
     for name in cfgs:
         ctx.set_config(name)
         check(ctx, fxs[name])
+        from rules import c08_hatch
+        c08_hatch.check(ctx, fxs[name], "R9")
 
 
 def dominating_conds(f, bid):
